@@ -43,7 +43,7 @@ def gen(r, tier, i):
     procs = []
     for pid in range(n):
         procs.append({'pid': pid, 'ts': r.choice(TS), 'bflag': r.random() < 0.5,
-                      'emit': {v: r.random() < 0.6 for v in ('a', 'b', 'q', 'q2', 'qser', 'ser', 'falsy')}})
+                      'emit': {v: r.random() < 0.6 for v in ('a', 'b', 'q', 'q2', 'qser', 'ser', 'falsy', 'qgrid')}})
     overrides = []
     for pid in range(n):
         k = r.random()
@@ -114,7 +114,8 @@ def setup():
     ser.name = 'vmon_tag'
     if serializer_registry.access('vmon_tag') is None:
         serializer_registry.register('vmon_tag', ser)
-    _env.update(units=units, ser=ser)
+    import numpy as np
+    _env.update(units=units, ser=ser, np=np)
 
 
 def build(spec, emit_step):
@@ -135,7 +136,10 @@ def build(spec, emit_step):
                       'ser': {'_default': 0, '_emit': em['ser'], '_serializer': 'vmon_tag'},
                       # a custom serializer on a variable whose default is a quantity
                       'qser': {'_default': 2.0 * units.fg, '_emit': em['qser'], '_serializer': 'vmon_tag'},
-                      'falsy': {'_default': 3, '_emit': em['falsy'], '_updater': 'set'}},
+                      'falsy': {'_default': 3, '_emit': em['falsy'], '_updater': 'set'},
+                      # an array with units and two dimensions (never updated)
+                      'qgrid': {'_default': _env['np'].array([[1.75, 2.75, 3.75], [0.5, 1.5, 2.5]]) * units.fg,
+                                '_emit': em.get('qgrid', False), '_updater': 'set'}},
                 'shared': {'n': {'_default': 0, '_emit': True}, 'hidden': {'_default': 0, '_emit': False}},
                 # a branch-level flag in the ports schema itself (the store is created by this declaration);
                 # v carries a flag of its own
@@ -347,6 +351,8 @@ def expected_row(spec, snap, fl):
             v = 'tag:%s' % (v,)
         elif path[-1] == 'qser':
             v = 'tag:%s' % (v.to(units.fg),)
+        elif path[-1] == 'qgrid':
+            v = [['!units[%s]' % str(x) for x in row] for row in v.to(units.fg)]
         put(path, v)
     return out
 
@@ -566,8 +572,10 @@ def _eq(a, b):
     if isinstance(a, dict) and isinstance(b, dict):
         return a.keys() == b.keys() and all(_eq(a[k], b[k]) for k in a)
     if hasattr(a, 'units') or hasattr(b, 'units'):
+        import numpy as np
         return hasattr(a, 'units') and hasattr(b, 'units') and a.units == b.units and \
-            abs(a.magnitude - b.magnitude) <= 1e-12 * (1 + abs(b.magnitude))
+            np.shape(a.magnitude) == np.shape(b.magnitude) and \
+            bool(np.all(abs(a.magnitude - b.magnitude) <= 1e-12 * (1 + abs(b.magnitude))))
     return type(a) is type(b) and a == b
 
 
